@@ -172,6 +172,8 @@ def _configured_providers(ctx):
         ("enum_by_name", spec.EInt, [enum_by_name()]), ("enum_by_name(style,map)", spec.EInt, [enum_by_name(name_style=NameStyle.LOWER_KEBAB, map={"A": "first"})]),
         ("enum_by_value(int)", spec.EInt, [enum_by_value(spec.EInt, tp=int)]), ("enum_by_value(str)", spec.EStr, [enum_by_value(spec.EStr, tp=str)]),
         ("enum_exact(unhashable values)", _unhashable_enum(), []), ("enum_exact(mixed)", spec.EMix, []),
+        ("enum_by_value(Decimal)", _decimal_enum(), [enum_by_value(_decimal_enum(), tp=__import__("decimal").Decimal)]),
+        ("enum_by_value(float)", _float_enum(), [enum_by_value(_float_enum(), tp=float)]),
         ("datetime_by_format", dtm.datetime, [datetime_by_format(fmt="%Y-%m-%d")]), ("datetime_by_timestamp", dtm.datetime, [datetime_by_timestamp()]),
         ("date_by_timestamp", dtm.date, [date_by_timestamp()]), ("default_dict", typing.DefaultDict[str, int], [default_dict(typing.DefaultDict[str, int], default_factory=int)]),
     ]
@@ -191,6 +193,64 @@ def _configured_providers(ctx):
             check_loads(ctx, node, prog, [(lbl, place(fac), os_) for lbl, fac, os_ in bag])
 
 
+def _extra_kwargs(ctx):
+    """extra_in=ExtraKwargs(): unknown keys go to **kwargs. Keys that cannot be keyword arguments (not a str, or equal to the name of a
+    parameter that is filled from another key) make the datum unacceptable - that has to be a LoadError like any other."""
+    import typing  # noqa: PLC0415
+
+    from adaptix import ExtraKwargs, Retort, name_mapping  # noqa: PLC0415
+
+    from ..adx import MODES  # noqa: PLC0415
+
+    class KW:
+        def __init__(self, a: int, b: int = 0, **kwargs):
+            self.a, self.b, self.kwargs = a, b, kwargs
+    plans = [("plain", {}, {"a": 1}), ("renamed", {"a": "x"}, {"x": 1}), ("nested", {"a": ("grp", "a")}, {"grp": {"a": 1}})]
+    extras = [("non-str-key:int", {5: 2}), ("non-str-key:None", {None: 2}), ("non-str-key:tuple", {(1, 2): 3}), ("parameter-name:self", {"self": 1}),
+              ("keyword:from", {"from": 1}), ("plain:u", {"u": 1}), ("empty-name", {"": 1}), ("two", {"u": 1, 7: 2})]
+    for plan, mp, base in plans:
+        for label, extra in extras + ([("parameter-name:a", {"a": 2})] if plan != "plain" else []) + [("parameter-name:b", {"b": 3})][:0]:
+            for dt, sc in MODES:
+                r = Retort(recipe=[name_mapping(KW, map=mp, extra_in=ExtraKwargs())], debug_trail=dt, strict_coercion=sc)
+                for hint, wrap_ in ((KW, lambda d: d), (typing.List[KW], lambda d: [d])):
+                    datum = wrap_({**base, **extra})
+                    out = attempt(r.load, datum, hint)
+                    ctx.evaluated(("extra-kwargs", plan, label, dt.name, sc, repr(hint)[:20]), nontrivial=True)
+                    ctx.count("extra_kwargs_loads")
+                    ctx.count(f"outcome_{out.kind}")
+                    if out.kind in ("exc", "impure"):
+                        undeliverable = label.startswith(("non-str-key", "parameter-name", "two"))
+                        key = "TypeError-undeliverable-extra-key@ExtraKwargs" if undeliverable and "TypeError" in repr(non_load(out.exc)) else escape_key(out.exc)
+                        ctx.violation(key, f"ExtraKwargs/{plan} <- {datum!r} [{mode_name(dt, sc)}]: escaped {type(out.exc).__name__}: {str(out.exc)[:160]}",
+                                      {"plan": plan, "datum": repr(datum), "mode": mode_name(dt, sc), "exception": repr(out.exc)[:400]})
+
+
+def non_load(e):
+    from ..adx import non_load_leaves  # noqa: PLC0415
+
+    return [type(x).__name__ for x in non_load_leaves(e)] or [type(e).__name__]
+
+
+_ENUMS = {}
+
+
+def _decimal_enum():
+    import enum  # noqa: PLC0415
+    from decimal import Decimal  # noqa: PLC0415
+
+    if "d" not in _ENUMS:
+        _ENUMS["d"] = enum.Enum("EDecimal", {"A": Decimal(1), "B": Decimal(2)})
+    return _ENUMS["d"]
+
+
+def _float_enum():
+    import enum  # noqa: PLC0415
+
+    if "f" not in _ENUMS:
+        _ENUMS["f"] = enum.Enum("EFloat", {"A": 1.5, "N": float("nan")})
+    return _ENUMS["f"]
+
+
 def _unhashable_enum():
     import enum  # noqa: PLC0415
 
@@ -200,6 +260,7 @@ def _unhashable_enum():
 I = spec.IntT
 DIRECTED = {
     "configured-builtin-providers": _configured_providers,
+    "extra-kwargs-undeliverable-keys": _extra_kwargs,
     "scalar-table-x-pool": _full_pool(spec._SCALARS),
     "containers-x-pool": _full_pool([
         spec.IterT("List", I()), spec.IterT("Set", spec.AnyT()), spec.IterT("FrozenSet", spec.AnyT()), spec.IterT("Deque", I()),
